@@ -61,6 +61,12 @@ terms of the MIT license. A copy of the license can be found in the file
 #endif
 #endif
 
+#ifdef MI_VERIF_HOOKS  // verification hooks (off by default): a test harness may interpose on the atomic primitives
+#define MI_VERIF_HOOK_POINT 1
+#include MI_VERIF_HOOKS
+#undef MI_VERIF_HOOK_POINT
+#endif
+
 // Various defines for all used memory orders in mimalloc
 #define mi_atomic_cas_weak(p,expected,desired,mem_success,mem_fail)  \
   mi_atomic(compare_exchange_weak_explicit)(p,expected,desired,mem_success,mem_fail)
@@ -550,5 +556,11 @@ static inline void mi_lock_done(mi_lock_t* lock) {
 
 #endif
 
+
+#ifdef MI_VERIF_HOOKS  // verification hooks (off by default): a test harness may interpose on yield and locks
+#define MI_VERIF_HOOK_POINT 2
+#include MI_VERIF_HOOKS
+#undef MI_VERIF_HOOK_POINT
+#endif
 
 #endif // __MIMALLOC_ATOMIC_H
